@@ -984,6 +984,12 @@ func r016n(c *Ctx, rule string) {
 }
 
 func isEmptySliceLit(v ssa.Value) bool {
+	// make(T, 0, n) (possibly converted to a named slice type): an empty list with room to grow
+	if ms, isMake := stripConv(v).(*ssa.MakeSlice); isMake {
+		if k, isK := constInt(ms.Len); isK && k == 0 {
+			return true
+		}
+	}
 	sl, ok := v.(*ssa.Slice)
 	if !ok {
 		if k, ok := v.(*ssa.Const); ok && k.Value == nil {
